@@ -657,6 +657,14 @@ class CoeffSetter(IdentityMapper):
         return self.value if e.name == "u" else e
 
 
+class CoeffSetterArgs(IdentityMapper):
+    """the value arrives as an extra traversal argument: positionally or by keyword"""
+
+    def map_variable(self, e, value=None, *, by=None):
+        v = value if by is None else by
+        return v if e.name == "u" else e
+
+
 def _mapped_variants(ctx, case, da, pts):
     """rewrites that change only SOME coefficients -- the highest, the lowest, one in the middle
     -- to 0 (the term vanishes), 1 or 5; the mapped polynomial must evaluate like the polynomial
@@ -673,6 +681,18 @@ def _mapped_variants(ctx, case, da, pts):
             try:
                 M = CoeffSetter(val)(S)
                 derived = [("itself", M), ("+ (1+x)", M + one_plus_x), ("* (1+x)", M * one_plus_x)]
+                # ... the same rewrite with the value handed down as a traversal argument
+                for how, Ma in (("positional argument", CoeffSetterArgs()(S, val)),
+                                ("keyword argument", CoeffSetterArgs()(S, by=val)),
+                                ("both", CoeffSetterArgs()(S, 99, by=val))):
+                    ctx.count("poly_mapped_with_arguments")
+                    if not (isinstance(Ma, Polynomial) == isinstance(M, Polynomial)
+                            and getattr(Ma, "data", Ma) == getattr(M, "data", M)):
+                        ctx.fail("C19.poly", case, f"mapped-coefficients:{how.split()[0]}",
+                                 f"polynomial {S.data}: rewriting u->{val} with the value passed as "
+                                 f"{how} gives {getattr(Ma, 'data', Ma)}; with the value held by the "
+                                 f"mapper: {getattr(M, 'data', M)}")
+                        return
             except Exception as ex:  # noqa: BLE001
                 ctx.fail("C19.poly", case, f"raised:mapper:{type(ex).__name__}",
                          f"mapping {S.data} with u->{val} raised {type(ex).__name__}: {ex}")
@@ -851,6 +871,18 @@ def workload(ctx):
                 ctx.case(("euclid", q, r), q != 0 or r != 0, n=0)
                 ctx.run("C19.euclid", (q, r))
     ctx.set_exhaustive("extended_euclidean over [-40,40]^2")
+    # depth: the pairs with the LONGEST remainder sequences (consecutive Fibonacci numbers:
+    # one division step per index), 10 .. 5000 steps, any order, sign and common multiple
+    fib = [0, 1]
+    while len(fib) < 5002:
+        fib.append(fib[-1] + fib[-2])
+    for n in (10, 90, 300, 700, 990, 1000, 1100, 1200, 2500, 5000):
+        for q, r in ((fib[n], fib[n + 1]), (fib[n + 1], fib[n]), (-fib[n + 1], fib[n]),
+                     (6 * fib[n], 6 * fib[n + 1]), (fib[n + 1] * fib[7], -fib[n] * fib[7])):
+            if ctx.mine("euclid-long"):
+                ctx.case(("euclid-fib", n, q > r, q < 0), True, n=0)
+                ctx.count("euclid_long_remainder_sequences")
+                ctx.run("C19.euclid", (q, r))
     for _ in range(ctx.per_shard(ctx.pick(400, 8000))):
         g = rng.randint(1, 2 ** 70)
         q, r = g * rng.randint(-2 ** 40, 2 ** 40), g * rng.randint(-2 ** 40, 2 ** 40)
@@ -949,6 +981,8 @@ def workload(ctx):
     ctx.floor("poly_kind_rewrites", 150)
     ctx.floor("poly_divmod_spellings", 1000)
     ctx.floor("poly_same_object_ops", 500)
+    ctx.floor("euclid_long_remainder_sequences", 40)
+    ctx.floor("poly_mapped_with_arguments", 1000)
     ctx.floor("real_input_transforms", 200)
     ctx.floor("big_polynomial_term_pairs", 50000)
     ctx.floor("poly_mapped", 1000)
